@@ -319,4 +319,75 @@ def c08(ctx):
                       'accepted texts.  distinct = distinct records.')
 
 
-CHECKS = {'C01': c01, 'C02': c02, 'C04': c04, 'C07': c07, 'C08': c08, 'C09': c09}
+def _sig_update(r):
+    if r.get('kind') != 'step':
+        return hash(json_key(r['variants']))
+    s = r['s0']
+    return hash((tuple(sorted((len(n['p']), n['k'], n['size']) for n in s['nodes'])),
+                 tuple(tuple((e['tag'], len(e['p']), len(e['ck'])) for e in m['entries']) for m in s['mfs']),
+                 json_key(r['ev']), len(r['written'])))
+
+
+def run_update_family(ctx, n_quick, n_thorough):
+    """Shared body of C03 / C10 / C12 / C13: seeded histories with every kind of prior Manifest
+    state, judged by TraceUpdate.tla."""
+    from . import drv_update as d
+    thorough = ctx.tier == 'thorough'
+    n = n_thorough if thorough else n_quick
+    recs = []
+    for prof, share in (('default', 0.7), ('ebuild', 0.15), ('old-ebuild', 0.15)):
+        k = int(n * share)
+        out = core.pool_map(d.one_update, [(ctx.seed, i, {'profile': prof}) for i in range(k)])
+        recs += [r for o in out for r in o]
+    g = max(n // 4, 40)
+    out = core.pool_map(d.canon_group, [(ctx.seed, i, {}) for i in range(g)])
+    out += core.pool_map(d.transparent_group, [(ctx.seed, i, {}) for i in range(g)])
+    recs += [r for o in out for r in o]
+    metas = [r.pop('meta') for r in recs]
+    for k in range(0, len(recs), 4000):
+        ctx.judge('TraceUpdate', 'TraceUpdate.cfg', recs[k:k + 4000], metas[k:k + 4000],
+                  {'driver': 'one_update/canon_group/transparent_group', 'module': 'TraceUpdate'},
+                  sig=_sig_update)
+    ends = {}
+    for r in recs:
+        if r.get('kind') == 'step':
+            key = '%s/%s/%s' % (r['ev']['end'], r['ev']['exc'], r['ev']['stage'])
+            ends[key] = ends.get(key, 0) + 1
+    ctx.extra['update_outcomes'] = ends
+    ctx.extra['histories'] = len([r for r in recs if r.get('kind') == 'step'])
+    ctx.extra['groups'] = len([r for r in recs if r.get('kind') != 'step'])
+    for r, m in list(zip(recs, metas))[:2]:
+        ctx.sample({'direction': 'code->spec', 'meta': m, 'ev': r.get('ev'), 'written': r.get('written')})
+    ctx.assumptions += ['raw byte/mtime_ns snapshots of the tree are the observation of writes',
+                        'update results judged only when update+save completed (C18 judges the rest)']
+
+
+RULE_UPDATE = ('code->spec: seeded trees with prior Manifest states (stale, duplicates with equal/sub/superset hash '
+               'sets, parent+child entries, unregistered valid/invalid sub-Manifests, two Manifests per directory '
+               'incl. one referencing the other, all compression formats), 0-3 edits, whole-tree and sub-directory '
+               'updates through library and CLI with random hashes/sort/force/watermark/format/profile, followed by '
+               'fresh verification and a second run; walk-order / entry-order / compression-assignment variant groups. '
+               'Judged by TraceUpdate.tla (UpdateRef!ExactCover, preservation, idempotence, watermark rule).')
+
+
+def c03(ctx):
+    run_update_family(ctx, 500, 12000)
+    return ctx.finish(rule=RULE_UPDATE)
+
+
+def c10(ctx):
+    run_update_family(ctx, 500, 12000)
+    return ctx.finish(rule=RULE_UPDATE)
+
+
+def c12(ctx):
+    run_update_family(ctx, 400, 10000)
+    return ctx.finish(rule=RULE_UPDATE)
+
+
+def c13(ctx):
+    run_update_family(ctx, 400, 10000)
+    return ctx.finish(rule=RULE_UPDATE)
+
+
+CHECKS = {'C03': c03, 'C10': c10, 'C12': c12, 'C13': c13, 'C01': c01, 'C02': c02, 'C04': c04, 'C07': c07, 'C08': c08, 'C09': c09}
